@@ -1,7 +1,7 @@
 #!/usr/bin/env python3
 import json, sys
 pid = sys.argv[1]
-d = "/tmp/seed-" + pid
+d = "/tmp/seed" + (sys.argv[2] if len(sys.argv) > 2 else "") + "-" + pid
 for l in open('/verif/properties.jsonl'):
     p = json.loads(l)
     if p['id'] == pid:
